@@ -382,3 +382,43 @@ func VerifHandleListCollections() {
 		vassert("listing-is-made-for-the-callers-user-id", u == "alice")
 	}
 }
+
+// C18: v1 POST /collections with any vector size (full width), five ids and five metric names.
+func VerifHandleCreateCollection() {
+	c := verifNewCluster()
+	id := []string{"abc", "ab", "Mixed1", "bad id", "seventeencharsxxx"}[nondetIntRange(0, 4)]
+	idOK := id == "abc" || id == "Mixed1"
+	size := uint(nondetInt64())
+	metric := []string{"euclidean", "cosine", "dot", "hamming", ""}[nondetIntRange(0, 4)]
+	metricOK := metric == "euclidean" || metric == "cosine" || metric == "dot"
+	sdbh := &SemaDBHandlers{}
+	plans := map[string]models.UserPlan{"basic": {Name: "basic", MaxCollections: 1, MaxCollectionPointCount: 100, MaxPointSize: 100}}
+	body := verifEncode(CreateCollectionRequest{Id: id, VectorSize: size, DistanceMetric: metric})
+	r := &http.Request{Method: "POST", Header: http.Header{}, Body: verifBody{bytes.NewReader(body)}, ContentLength: int64(len(body))}
+	r.Header["Content-Type"] = []string{"application/msgpack"}
+	r.Header["X-User-Id"] = []string{"alice"}
+	r.Header["X-Plan-Id"] = []string{"basic"}
+	w := &verifWriter{hdr: http.Header{}}
+	middleware.AppHeaderMiddleware(plans, http.HandlerFunc(sdbh.HandleCreateCollection)).ServeHTTP(w, r)
+	vcover("reached")
+	vassert("exactly-one-status-written", w.headerCalls == 1)
+	ok := idOK && metricOK && size >= 1 && size <= 4096
+	if c.calls > 0 {
+		vcover("cluster-reached")
+		vassert("only-well-formed-collections-reach-the-cluster-layer", ok)
+		col := c.created
+		vassert("collection-is-created-for-the-caller-with-the-active-plan", col != nil && col.UserId == "alice" && col.Id == id && col.UserPlan.Name == "basic")
+		if col != nil {
+			v, has := col.IndexSchema["vector"]
+			vassert("v1-collection-has-the-vamana-vector-index-of-the-requested-size", has && v.Type == models.IndexTypeVectorVamana && v.VectorVamana != nil && v.VectorVamana.VectorSize == size && v.VectorVamana.DistanceMetric == metric)
+			vassert("schema-passes-validation", col.IndexSchema.Validate() == nil)
+		}
+	} else {
+		vassert("refused-create-is-answered-4xx", w.status >= 400 && w.status < 500)
+	}
+	if !ok {
+		vassert("malformed-create-never-reaches-the-cluster-layer", c.calls == 0)
+	} else {
+		vassert("well-formed-create-reaches-the-cluster-layer", c.calls == 1)
+	}
+}
